@@ -49,7 +49,7 @@ func sharedSafeGlobalType(t types.Type) bool {
 		n := namedOf(t)
 		if n != nil && n.Obj().Pkg() != nil {
 			switch n.Obj().Pkg().Path() + "." + n.Obj().Name() {
-			case "regexp.Regexp", "html/template.Template", "errors.errorString":
+			case "regexp.Regexp", "html/template.Template", "errors.errorString", "strings.Replacer":
 				return true
 			}
 			if p := n.Obj().Pkg().Path(); p == "sync" || p == "sync/atomic" {
@@ -285,6 +285,17 @@ func checkC15(cx *Ctx, r *Report) {
 							for l := range vf.objLabels(rs.X, 0) {
 								if sh, why := classify(l); sh {
 									r.Fail("R-EFFECT", w.FuncKey(fn)+":append-into-reslice", w.InstrPos(x), "append into a re-slice of "+why+" overwrites its elements: concurrent requests share it")
+								}
+							}
+						}
+					}
+					if strings.HasPrefix(n, "(*sync/atomic.Pointer[") || strings.HasPrefix(n, "(*sync/atomic.Value).") {
+						// an object published through a shared atomic pointer / value is seen by every later request
+						switch n[strings.LastIndex(n, ".")+1:] {
+						case "Store", "Swap", "CompareAndSwap":
+							for l := range vf.objLabels(x.Common().Args[0], 0) {
+								if sh, why := classify(l); sh {
+									r.Fail("R-EFFECT", w.FuncKey(fn)+":"+shortCallee(n), w.InstrPos(x), "per-request code publishes an object through an atomic pointer / value that is "+why+": later replies can carry what this request produced")
 								}
 							}
 						}
